@@ -226,6 +226,11 @@ NORMAL_PROGRAMS = [
     "def gen():\n    try:\n        yield 1\n    except GeneratorExit:\n        raise\ng = gen()\nnext(g)\ng.close()\n",
     "try:\n    raise KeyboardInterrupt\nexcept KeyboardInterrupt:\n    pass\n",
     "try:\n    raise SystemExit(3)\nexcept SystemExit:\n    print('no exit')\n",
+    # student code that installs / removes a trace function of its own: whatever was installed BEFORE the
+    # execution must be back afterwards
+    "import sys\nsys.settrace(lambda *a: None)\nx = 1\n",
+    "import sys\nsys.settrace(None)\nx = 2\n",
+    "import sys\ndef tr(frame, event, arg):\n    return tr\nsys.settrace(tr)\ndef f():\n    return 7\nprint(f())\n",
 ]
 
 COMPILE_FAILURES = [
@@ -465,6 +470,12 @@ def coverage_histories(rng, per_snippet_entries=("run", "call", "eval")):
         k += 1
         hists.append([{"entry": "run", "style": style, "inject": False, "code": code, "term": ["N"],
                        "shape": "normal"}])
+    # student code that touches the trace function itself: under EVERY tracer style
+    for code in NORMAL_PROGRAMS:
+        if "settrace" in code:
+            for style in STYLES:
+                hists.append([{"entry": "run", "style": style, "inject": False, "code": code, "term": ["N"],
+                               "shape": "normal:settrace"}])
     for expr, d, shape in EVAL_DIRECT:
         style = STYLES[k % len(STYLES)]
         k += 1
@@ -769,10 +780,18 @@ C04_FIELDS = ("outcome", "rk", "exc", "fb")
 C05_FIELDS = ("stdout", "sleep", "mods", "trace", "bi", "dp", "do")
 
 
-def compare_op(prop, real, model):
+def student_sets_trace_untraced(op):
+    """The property covers the trace function 'when tracing is enabled': with tracer style 'none' pedal borrows no
+    trace function, so a student program that calls sys.settrace itself decides what is installed afterwards."""
+    return op is not None and op.get("style") == "none" and "settrace" in (op.get("code") or "")
+
+
+def compare_op(prop, real, model, op=None):
     """Fields of `prop` on which one op's real and model observations differ."""
     diffs = []
     fields = C04_FIELDS if prop == "C04" else C05_FIELDS
+    if prop == "C05" and student_sets_trace_untraced(op):
+        fields = tuple(f for f in fields if f != "trace")
     if prop == "C04" and model["outcome"].startswith("esc"):
         # the call did not return: how far `_capture_exception` got before raising (was `sandbox.exception`
         # already assigned?) is not part of the property and not modelled
@@ -876,6 +895,8 @@ def oracle_c04(op, o):
 
 def oracle_c05(op, o):
     leaked = sorted(k for k in ("stdout", "sleep", "mods", "trace", "bi") if not o[k])
+    if student_sets_trace_untraced(op) and "trace" in leaked:
+        leaked.remove("trace")
     if o["dp"]:
         leaked.append("patch-stack")
     if o["do"]:
